@@ -127,8 +127,10 @@ Proof.
   apply nth_error_Some in X. unfold NREGS in Hl. lia.
 Qed.
 
+Lemma take_at_lt : forall o st t s1, take_at o st = Ok (t, s1) -> Inv st -> Nat.ltb t 16 = true.
+Proof. intros o st t s1 H I. apply take_at_facts in H. eapply lt16; [exact (i_alen _ I)|exact (proj1 H)]. Qed.
 Lemma take_lt : forall st t s1, take st = Ok (t, s1) -> Inv st -> Nat.ltb t 16 = true.
-Proof. intros st t s1 H I. apply take_facts in H. eapply lt16; [exact (i_alen _ I)|exact (proj1 H)]. Qed.
+Proof. exact (take_at_lt None). Qed.
 
 Lemma low_ix_ok : forall ix st p, low_ix ix st = Ok p -> Inv st -> BS.rop_lt p = true.
 Proof.
@@ -163,6 +165,9 @@ Proof.
     unfold Lower.R. cbn [forallb plain_instr BS.instr_ok BS.reg_lt BS.rop_lt]. rewrite Ht', Hp. auto.
   - destruct (alook v (l_lv st)) as [r|] eqn:E; inv_ok H. split; [reflexivity|].
     cbn. eapply lt16; [exact (i_alen _ I)|exact (i_lv _ I _ _ E)].
+  - unfold rf_lookup in H. destruct (alook r (l_rf st)) as [[[] k]|] eqn:E; try discriminate; inv_ok H.
+    + destruct (i_rfM _ I _ _ E) as [(m & X)|X]; discriminate.
+    + split; [reflexivity|]. cbn. eapply lt16; [exact (i_mlen _ I)|exact (proj2 (i_rf _ I _ _ E))].
 Qed.
 
 (* ------------------------------------------------------------------ the lowest unused id is at most the number of live handles *)
@@ -335,17 +340,17 @@ Proof.
        destruct (low_cval_ok _ _ _ _ _ _ Hy I2) as [Hly Hpy];
        split; [apply SK_if; auto; rewrite forallb_app, Hlx, Hly; reflexivity
               |apply Fin; eapply sba_trans; [exact Sx|eapply sba_trans; [eapply low_cval_sba; eauto|apply sba_release_all]]]).
-  - (* SLoop *) intros cb v oreg a b step body IH Hw st code st' cap H I Hb. destruct oreg; [discriminate|].
+  - (* SLoop *) intros cb v oreg a b step body IH Hw st code st' cap H I Hb.
     cbn [wfs] in Hw. apply andb_prop in Hw. destruct Hw as [Hw _]. apply andb_prop in Hw. destruct Hw as [Hwb Hwf].
     destruct (proj2 wfs_plain body Hwf) as [Hp He]. cbn [qpk fst snd] in *. cbn [lower_stmt] in H.
     destruct (alook v (l_lv st)); [discriminate|].
-    destruct (take st) as [[r s1]|] eqn:Ht; cbn [bind] in H; [|discriminate].
+    destruct (take_at oreg st) as [[r s1]|] eqn:Ht; cbn [bind] in H; [|discriminate].
     destruct (lower_block true body (bind_lvr v r s1)) as [[cbody s2]|] eqn:Hl; cbn [bind] in H; [|discriminate].
-    assert (Ib := Inv_bind_loop _ _ _ v Ht I).
-    destruct (sba_take _ _ _ Ht) as (_ & Q0' & _).
+    assert (Ib := Inv_bind_loop_at _ _ _ _ v Ht I).
+    destruct (sba_take_at _ _ _ _ Ht) as (_ & Q0' & _).
     destruct (IH Hwf _ _ _ cap Hl Ib) as [Kb _]; [cbn; rewrite Q0'; exact Hb|].
     assert (Q2 := body_q_restored _ _ _ _ Hp He Hwb Hl Ib). cbn in Q2.
-    assert (Hr := take_lt _ _ _ Ht I).
+    assert (Hr := take_at_lt _ _ _ _ Ht I).
     destruct (is_nil cbody); inv_ok H; (split; [|cbn; rewrite Q2, Q0'; reflexivity]); [apply SK_nil|].
     apply SK_loop; [exact Hr|exact Kb].
   - (* SForeach *) intros enum v a body IH Hw st code st' cap H I Hb.
@@ -391,8 +396,43 @@ Proof.
     inv_ok H. split; [apply SK_until; auto|cbn; rewrite Q4, Q3, Q2, Q0'; reflexivity].
   - intros k body IH Hw. discriminate.
   - intro Hw. discriminate.
-  - intros a b n o m Hw. discriminate.
-  - intros q ip a b n Hw. discriminate.
+  - (* SFutAddX *) intros a b n o m _ st c st' cap H I Hb. cbn [lower_stmt] in H.
+    destruct (take st) as [[t s1]|] eqn:Ht; cbn [bind] in H; [|discriminate].
+    destruct (take s1) as [[ti s1i]|] eqn:Hti; cbn [bind] in H; [|discriminate].
+    destruct (low_src o (release ti s1i)) as [[[[lo y] ts] s2]|] eqn:Hs; cbn [bind] in H; [|discriminate].
+    match type of H with Ok (?cc, ?X) = _ => assert (Ec : c = cc) by (inversion H; reflexivity);
+                                             assert (Es : st' = X) by (inversion H; reflexivity) end.
+    clear H. assert (I1 := Inv_take _ _ _ Ht I).
+    assert (Ht' := take_lt _ _ _ Ht I). assert (Hti' := take_lt _ _ _ Hti I1).
+    assert (Sr : sba s1 (release ti s1i)) by (eapply sba_trans; [eapply sba_take; eauto|apply sba_release]).
+    assert (Ea : l_act (release ti s1i) = l_act s1).
+    { destruct (take_facts _ _ _ Hti) as (Hf & Ha & _). unfold release. cbn [l_act with_act]. rewrite Ha.
+      apply set_nth_undo. exact Hf. }
+    assert (Ir : Inv (release ti s1i)) by (eapply Inv_sba; eauto).
+    destruct (low_src_ok _ _ _ _ _ _ Hs Ir) as [Hlo Hy]. split.
+    + rewrite Ec. apply SK_instrs. rewrite !forallb_app. unfold Lower.R. cbn [forallb].
+      rewrite Hlo. cbn [plain_instr BS.instr_ok BS.reg_lt BS.rop_lt]. rewrite Ht', Hti'. cbn [andb].
+      destruct m; cbn [add_instr plain_instr BS.instr_ok BS.reg_lt]; rewrite Ht', Hy; reflexivity.
+    + assert (S : sba st st').
+      { rewrite Es. eapply sba_trans; [eapply sba_take; eauto|].
+        eapply sba_trans; [exact Sr|].
+        eapply sba_trans; [eapply low_src_sba; eauto|].
+        eapply sba_trans; [apply sba_release|apply sba_release_all]. }
+      destruct S as (_ & Q & _). rewrite Q. reflexivity.
+  - (* SMeasFutX *) intros q ip a b n _ st c st' cap H I Hb. cbn [lower_stmt] in H.
+    destruct (low_meas q ip false st) as [[[m c0] s1]|] eqn:Em; cbn [bind] in H; [|discriminate].
+    destruct (take s1) as [[ti s1i]|] eqn:Hti; cbn [bind] in H; [|discriminate]. inv_ok H.
+    destruct (low_meas_ok _ _ _ _ _ _ _ (Z.of_nat cap) Em I) as (K & Hm & Hq).
+    destruct (low_meas_false_inv _ _ _ _ _ _ Em I) as [I1 _].
+    assert (Hti' := take_lt _ _ _ Hti I1).
+    assert (S : sba s1 (release ti s1i)) by (eapply sba_trans; [eapply sba_take; eauto|apply sba_release]).
+    destruct S as (_ & Q & _).
+    split; [|rewrite Q, Hq; destruct ip; reflexivity].
+    apply SK_app; [exact K|].
+    change [XI (ILoad (Lower.R ti) b (PImm (Z.of_nat n))); XI (IStore (PReg (Lower.M m)) a (PReg (Lower.R ti)))]
+      with (map XI [ILoad (Lower.R ti) b (PImm (Z.of_nat n)); IStore (PReg (Lower.M m)) a (PReg (Lower.R ti))]).
+    apply SK_instrs. unfold Lower.R, Lower.M. cbn [forallb plain_instr BS.instr_ok BS.reg_lt BS.rop_lt andb].
+    rewrite Hm, Hti'. reflexivity.
   - intros _ st c st' cap H I Hb. inv_ok H. split; [apply SK_nil|reflexivity].
   - intros s IHs b IHb Hw st c st' cap H I Hb. cbn [bwfs] in Hw. apply andb_prop in Hw. destruct Hw as [Hw1 Hw2].
     destruct (proj1 wfs_plain s Hw1) as [Hp1 He1].
